@@ -31,7 +31,7 @@ func addPad(t *rapid.T, g *G) {
 	n := ri(t, 250, 330, "padn")
 	nT := len(g.Toks)
 	total := 0
-	for l, pw := 1, nT; l <= 4; l, pw = l+1, pw*nT {
+	for l, pw := 1, nT-1; l <= 4; l, pw = l+1, pw*(nT-1) {
 		total += pw
 	}
 	if n > total*3/4 {
@@ -43,7 +43,7 @@ func addPad(t *rapid.T, g *G) {
 		l := ri(t, 1, 4, "padlen")
 		var p Prod
 		for i := 0; i < l; i++ {
-			p.Terms = append(p.Terms, tokTerm(g, ri(t, 0, nT-1, "padt")))
+			p.Terms = append(p.Terms, tokTerm(g, ri(t, 0, nT-2, "padt"))) // the last token never occurs inside pad strings
 		}
 		k := fmt.Sprint(p.Terms)
 		if seen[k] {
@@ -52,8 +52,26 @@ func addPad(t *rapid.T, g *G) {
 		seen[k] = true
 		pad.Prods = append(pad.Prods, p)
 	}
-	use := Prod{Terms: []Term{tokTerm(g, ri(t, 0, nT-1, "padg")), ruleTerm("pad"), tokTerm(g, ri(t, 0, nT-1, "padf"))}}
-	g.Rules[0].Prods = append(g.Rules[0].Prods, use)
+	use := Prod{Terms: []Term{tokTerm(g, nT-1), ruleTerm("pad"), tokTerm(g, nT-1)}}
+	if nT >= 5 && len(pad.Prods) >= 255 && rapid.Bool().Draw(t, "aligned") {
+		// a small conflict-free host so that the tables (not only the verdict) are compared
+		g.Rules = []Rule{{Name: g.Rules[0].Name, Prods: []Prod{use}}}
+	} else {
+		g.Rules[0].Prods = append(g.Rules[0].Prods, use)
+	}
+	if nT >= 5 && len(pad.Prods) >= 255 && len(g.Rules) == 1 {
+		// two look-alike rules whose production indices differ by exactly 256, used together in
+		// one context and alone in another (index arithmetic in 8 bits would confuse the two states)
+		pad.Prods = pad.Prods[:255]
+		p1 := Rule{Name: "pq1", Prods: []Prod{{Terms: []Term{tokTerm(g, 0), tokTerm(g, 1)}}}}
+		p2 := Rule{Name: "pq2", Prods: []Prod{{Terms: []Term{tokTerm(g, 0), tokTerm(g, 2)}}}}
+		u := Rule{Name: "pqu", Prods: []Prod{{Terms: []Term{ruleTerm("pq1")}}, {Terms: []Term{ruleTerm("pq2")}}}}
+		g.Rules[0].Prods = append(g.Rules[0].Prods,
+			Prod{Terms: []Term{tokTerm(g, 2), ruleTerm("pqu"), tokTerm(g, 3)}},
+			Prod{Terms: []Term{tokTerm(g, 3), ruleTerm("pq1"), tokTerm(g, 3)}})
+		g.Rules = append(g.Rules, u, p1, pad, p2)
+		return
+	}
 	if rapid.Bool().Draw(t, "padfirst") {
 		g.Rules = append([]Rule{g.Rules[0], pad}, g.Rules[1:]...)
 	} else {
